@@ -57,7 +57,7 @@ def make_case(unit):
     template = TEMPLATES[i % len(TEMPLATES)]
     j = i // len(TEMPLATES)
     wmode = WEIGHTS[j % len(WEIGHTS)]
-    mode = MODES[(j // len(WEIGHTS)) % len(MODES)]
+    mode = MODES[gen.stratum(ID, i, 1, len(MODES))]
     N = g.pick([6, 8, 10, 12, 16, 20, 30, 40])
     nparts = len(template.split("|"))
     sizes = [g.r.randint(2, 5) for _ in range(nparts)]
